@@ -7,6 +7,7 @@ import GN.Driver.C19
 import GN.Driver.C20
 import GN.Driver.Req
 import GN.Driver.EL
+import GN.Driver.Url
 
 /-! Line-protocol driver: one verdict line per case line read from stdin. -/
 
@@ -18,6 +19,8 @@ def dispatch (line : String) : String :=
   | "C10" :: rest => GN.Driver.C10.handle rest
   | "C11" :: rest => GN.Driver.C11.handle rest
   | "C12" :: rest => GN.Driver.C12.handle rest
+  | "C13" :: rest => GN.Driver.Url.handleC13 rest
+  | "C14" :: rest => GN.Driver.Url.handleC14 rest
   | "C16" :: rest => GN.Driver.C16.handle rest
   | "C18" :: rest => GN.Driver.C18.handle rest
   | "C19" :: rest => GN.Driver.C19.handle rest
